@@ -57,8 +57,124 @@ GUARD_IDIOMS = [
 # contains that check is guarded as well (janet_continue / janet_continue_signal -> janet_check_can_resume)
 HELPER_IDIOM = GUARD_IDIOMS[0]
 
-# indirect-call edges judged infeasible: (caller regex, callee regex, reason).  Fixed on the clean tree; trusted base.
-EXEMPT_INDIRECT = []
+# indirect-call edges judged infeasible: (caller regex, callee regex, reason, checker name or None).
+# Fixed on the clean tree; trusted base.  A checker re-validates the written reason against the current source.
+EXEMPT_INDIRECT = [
+    ("janet_async_end", r".*", "janet_async_end invokes fiber->ev_callback only with the constant JANET_ASYNC_EVENT_DEINIT; in every "
+     "callback the DEINIT/default branch releases state and returns without calling janet_async_end again", "check_deinit_branch"),
+]
+
+# functions on a cycle whose recursion depth is bounded by a written argument instead of a guard idiom:
+#   name -> (reason, checker name).  They are emitted with the mark `bounded` (treated like a guard by rankOK, limit
+# given by the argument) and listed in the evidence; the checker re-validates the argument on the current source and the
+# exemption is dropped (-> unguarded cycle) when it no longer applies.
+EXEMPT_BOUNDED = {
+    "doarg_1": ("self call only for argtype == JANET_OAT_TYPE and passes JANET_OAT_SIMPLETYPE, for which a tuple is an error: depth <= 2",
+                "check_doarg"),
+    "dohead_destructure": ("self call only when opts.flags has JANET_FOPTS_DROP, and the callee gets subopts with DROP cleared: depth <= 2",
+                           "check_dohead"),
+    "janet_asm_addenv": ("walks a->parent: chain length = nesting depth of janet_asm1, which is guarded",
+                         "check_addenv"),
+    "janet_mark_funcdef": ("recursion over def->defs nesting; funcdefs with sub-defs are only built by the compiler (janetc_value guard), "
+                           "unmarshal_one_def (MARSH_STACKCHECK) and janet_asm1 (depth guard): nesting <= JANET_RECURSION_GUARD", "check_defs_creators"),
+    "janet_disasm_defs": ("recursion over def->defs nesting, bounded at creation like janet_mark_funcdef", "check_defs_creators"),
+    # FFI (ffi.c is the unsafe-by-design foreign interface and not one of the consumers the property names): the type
+    # walkers below recurse over the nesting of a type description / of struct types without any limit.  They are
+    # OBSERVATIONS of the check (evidence: observations, notes/C19.md), not guarded and not proved bounded.
+    "decode_ffi_type": ("OUT OF SCOPE (ffi): unguarded recursion over nested type tuples; reported as observation", None),
+    "sysv64_classify_ext": ("OUT OF SCOPE (ffi): unguarded recursion over nested struct types; reported as observation", None),
+}
+
+
+def check_deinit_branch(g, bodies, ir):
+    """every address-taken callback reachable from janet_async_end: the code run for DEINIT must not call janet_async_end"""
+    for (a, b), k in g.raw_edges.items():
+        if a != "janet_async_end" or k != "indirect":
+            continue
+        body = bodies.get(b) or ""
+        if "janet_async_end" not in body:
+            continue
+        m = re.search(r"switch\s*\(\s*event\s*\)\s*\{", body)
+        if not m:
+            return "%s calls janet_async_end outside a switch (event)" % b
+        sw = body[m.end() - 1:match_brace(body, m.end() - 1)]
+        # split into label groups
+        parts = re.split(r"(\bcase\s+\w+\s*:|\bdefault\s*:)", sw)
+        labels, segs = [], []
+        cur = []
+        for p in parts[1:]:
+            if re.match(r"\bcase\b|\bdefault\b", p):
+                cur.append(p)
+            else:
+                if p.strip():
+                    segs.append((cur, p))
+                    cur = []
+        has_deinit = any("JANET_ASYNC_EVENT_DEINIT" in l for ls, _ in segs for l in ls)
+        for i, (ls, code) in enumerate(segs):
+            hit = any("JANET_ASYNC_EVENT_DEINIT" in l for l in ls) or (not has_deinit and any("default" in l for l in ls))
+            if not hit:
+                continue
+            # code executed from this label until the first break/return (fall-through into later segments otherwise)
+            j = i
+            while j < len(segs):
+                c = segs[j][1]
+                stop = re.search(r"\bbreak\s*;|\breturn\b", c)
+                run = c[:stop.start()] if stop else c
+                if "janet_async_end" in run:
+                    return "%s reaches janet_async_end on JANET_ASYNC_EVENT_DEINIT" % b
+                if stop:
+                    break
+                j += 1
+    return None
+
+
+def check_doarg(g, bodies, ir):
+    b = bodies.get("doarg_1") or ""
+    calls = re.findall(r"doarg_1\s*\(([^;]*?)\)\s*;", b)
+    if len(calls) != 1 or "JANET_OAT_SIMPLETYPE" not in calls[0]:
+        return "doarg_1: recursive call no longer passes JANET_OAT_SIMPLETYPE"
+    if not re.search(r"if\s*\(\s*argtype\s*==\s*JANET_OAT_TYPE\s*\)", b):
+        return "doarg_1: recursion no longer restricted to JANET_OAT_TYPE"
+    return None
+
+
+def check_dohead(g, bodies, ir):
+    b = bodies.get("dohead_destructure") or ""
+    if not re.search(r"subopts\.flags\s*=\s*opts\.flags\s*&\s*~\s*\(\s*JANET_FOPTS_TAIL\s*\|\s*JANET_FOPTS_DROP\s*\)", b):
+        return "dohead_destructure: subopts no longer clears JANET_FOPTS_DROP"
+    if not re.search(r"if\s*\(\s*has_drop\s*&&", b) or not re.search(r"has_drop\s*=\s*opts\.flags\s*&\s*JANET_FOPTS_DROP", b):
+        return "dohead_destructure: recursion no longer conditional on JANET_FOPTS_DROP"
+    calls = re.findall(r"dohead_destructure\s*\(([^;]*?)\)\s*;", b)
+    if len(calls) != 1 or "subopts" not in calls[0]:
+        return "dohead_destructure: recursive call does not pass subopts"
+    return None
+
+
+def check_addenv(g, bodies, ir):
+    b = bodies.get("janet_asm_addenv") or ""
+    calls = re.findall(r"janet_asm_addenv\s*\(([^;]*?)\)\s*;", b)
+    if len(calls) != 1 or not re.match(r"\s*a\s*->\s*parent\s*,", calls[0]):
+        return "janet_asm_addenv: recursive call is not on a->parent"
+    if "janet_asm1" not in g.guard:
+        return "janet_asm_addenv: janet_asm1 (which builds the parent chain) has no depth guard"
+    return None
+
+
+def check_defs_creators(g, bodies, ir):
+    need = {"janet_asm1": "janet_asm1", "unmarshal_one_def": "unmarshal_one_def", "janetc_value": "janetc_value"}
+    for fn in need:
+        if fn not in g.guard:
+            return "funcdef nesting is not bounded at creation: %s has no depth guard" % fn
+    creators = sorted(nm for nm, b in bodies.items() if b and re.search(r"->\s*defs\s*=[^=]", b))
+    expected = {"janet_asm1", "unmarshal_one_def", "janetc_pop_funcdef", "janet_funcdef_alloc"}
+    extra = [c for c in creators if c not in expected]
+    if extra:
+        return "unexpected function(s) assign def->defs: %s" % ", ".join(extra)
+    return None
+
+
+CHECKERS = {"check_deinit_branch": check_deinit_branch, "check_doarg": check_doarg, "check_dohead": check_dohead,
+            "check_addenv": check_addenv, "check_defs_creators": check_defs_creators}
 
 
 # ---------------------------------------------------------------------------------------------- IR
@@ -444,6 +560,11 @@ def extract(build, exempt=None):
         by_sig.setdefault(ir.funcs[nm]["sig"], []).append(nm)
     edges = {}
     g.exempted = []
+    g.raw_edges = {}
+    for a, f in ir.funcs.items():
+        for sig in f["icalls"]:
+            for b in by_sig.get(sig, ()):
+                g.raw_edges[(a, b)] = "indirect"
     for a, f in ir.funcs.items():
         for b in f["calls"]:
             if b in ir.funcs and b not in cut:
@@ -453,7 +574,7 @@ def extract(build, exempt=None):
                 if b in cut:
                     continue
                 why = None
-                for ra, rb, reason in exempt:
+                for ra, rb, reason, _chk in exempt:
                     if re.fullmatch(ra, a) and re.fullmatch(rb, b):
                         why = reason
                         break
@@ -507,6 +628,28 @@ def extract(build, exempt=None):
                     g.guard[nm] = (HELPER_IDIOM[0] + "-via-" + h, g.limits.get(HELPER_IDIOM[2], 0))
                     break
     g.bodies = bodies
+    # exemptions with a written argument; each is re-validated on the current source
+    g.bounded = {}
+    g.exemption_failures = []
+    for nm, (reason, chk) in sorted(EXEMPT_BOUNDED.items()):
+        if nm not in g.nodes or nm in g.guard:
+            continue
+        err = CHECKERS[chk](g, bodies, ir) if chk else None
+        if err:
+            g.exemption_failures.append((nm, err))
+        else:
+            g.bounded[nm] = reason
+    used_indirect = sorted(set(w for _, _, w in g.exempted))
+    for ra, rb, reason, chk in exempt:
+        if chk and reason in used_indirect:
+            err = CHECKERS[chk](g, bodies, ir)
+            if err:
+                g.exemption_failures.append((ra, err))
+    if g.exemption_failures and any(nm == "janet_async_end" for nm, _ in g.exemption_failures):
+        # the exemption of the callback edges no longer holds: redo with those edges kept
+        return extract(build, exempt=[e for e in exempt if e[0] != "janet_async_end"])
+    for nm in g.bounded:
+        g.guard[nm] = ("bounded", 0)
     # rank certificate: longest path in the non-guard subgraph (per SCC); cycles -> leftover nodes
     ng = [n for n in g.nodes if n not in g.guard]
     nsucc = {n: [] for n in ng}
@@ -544,9 +687,40 @@ def extract(build, exempt=None):
 
 # ---------------------------------------------------------------------------------------------- Lean
 
+def find_cycle(nodes, edges):
+    """a closed path inside `nodes` (a strongly connected set): [v0, v1, ..., v0]"""
+    S = set(nodes)
+    succ = {}
+    for (a, b) in edges:
+        if a in S and b in S:
+            succ.setdefault(a, []).append(b)
+    start = sorted(S)[0]
+    # BFS back to start
+    prev = {}
+    todo = [start]
+    seen = set()
+    while todo:
+        v = todo.pop(0)
+        for w in sorted(succ.get(v, ())):
+            if w == start:
+                path = [start]
+                x = v
+                rev = []
+                while x != start:
+                    rev.append(x)
+                    x = prev[x]
+                return [start] + rev[::-1] + [start]
+            if w not in seen:
+                seen.add(w)
+                prev[w] = v
+                todo.append(w)
+    return []
+
+
 def render(g, tree_desc="current tree"):
     idx = {n: i for i, n in enumerate(g.nodes)}
-    L = [lean_header("tools/gen/callgraph.py; LLVM IR of the bootstrapped amalgamation, " + tree_desc)]
+    L = ["import JanetModel.Depth.Model",
+         lean_header("tools/gen/callgraph.py; LLVM IR of the bootstrapped amalgamation, " + tree_desc)]
     L.append("namespace JanetModel.Gen.Depth\n")
     L.append("/-- functions that lie on a call cycle (index = position) -/")
     L.append("abbrev names : List String := [")
@@ -558,7 +732,8 @@ def render(g, tree_desc="current tree"):
     es = sorted((idx[a], idx[b]) for (a, b) in g.edges)
     L.append(",\n".join("  " + ", ".join("(%d, %d)" % e for e in es[i:i + 12]) for i in range(0, len(es), 12)))
     L.append("]\n")
-    L.append("/-- guard mark per function (true = body contains a depth-guard idiom) -/")
+    L.append("/-- guard mark per function (true = body contains a depth-guard idiom, or recursion bounded by a written,\n"
+             "    re-validated argument: see the table at the end of this file) -/")
     L.append("abbrev guard : List Bool := [")
     gs = ["true" if n in g.guard else "false" for n in g.nodes]
     L.append(",\n".join("  " + ", ".join(gs[i:i + 16]) for i in range(0, len(gs), 16)))
@@ -568,14 +743,19 @@ def render(g, tree_desc="current tree"):
     rs = [str(g.rank.get(n, 0)) for n in g.nodes]
     L.append(",\n".join("  " + ", ".join(rs[i:i + 24]) for i in range(0, len(rs), 24)))
     L.append("]\n")
+    L.append("abbrev cg : JanetModel.Depth.CG := { n := nV, edges := edges, guard := guard }\n")
+    cyc = find_cycle(g.bad[0], g.edges) if g.bad else []
+    L.append("/-- a closed chain of non-guard functions when the translator found one ([] on a tree where every cycle is guarded) -/")
+    L.append("abbrev unguardedCycle : List Nat := [%s]\n" % ", ".join(str(idx[n]) for n in cyc))
     L.append("abbrev recursionGuard : Nat := %d" % g.limits["JANET_RECURSION_GUARD"])
     L.append("abbrev maxProtoDepth : Nat := %d" % g.limits.get("JANET_MAX_PROTO_DEPTH", 0))
     L.append("abbrev maxMacroExpand : Nat := %d" % g.limits.get("JANET_MAX_MACRO_EXPAND", 0))
     L.append("abbrev nFunctionsTotal : Nat := %d" % g.nfuncs)
-    L.append("\n/- guard idiom matched per guard function:")
+    L.append("\n/- guard functions and the idiom matched in their source body (bounded = written argument, re-validated):")
     for n in g.nodes:
         if n in g.guard:
-            L.append("   %s: %s" % (n, g.guard[n][0]))
+            L.append("   %3d %s: %s%s" % (idx[n], n, g.guard[n][0], (" -- " + g.bounded[n]) if n in g.bounded else ""))
+    L.append("   cut (non-returning): " + ", ".join(g.cut))
     L.append("-/")
     L.append("\nend JanetModel.Gen.Depth\n")
     return "\n".join(L)
